@@ -102,7 +102,7 @@ fn contract(n: usize, nstates: usize, k: usize) -> bool {
 #[kani::stub(std::fmt::format, stub_format)]
 #[kani::stub(crate::TokenStream::lookahead_token_type, stub_lookahead_token_type)]
 #[kani::stub(crate::TokenStream::token_types, stub_token_types)]
-fn c08_eval_symbolic_table() {
+pub(crate) fn c08_eval_symbolic_table() {
     symbolic_table_body(MAX_T, 5, 3);
 }
 
@@ -112,7 +112,7 @@ fn c08_eval_symbolic_table() {
 #[kani::stub(std::fmt::format, stub_format)]
 #[kani::stub(crate::TokenStream::lookahead_token_type, stub_lookahead_token_type)]
 #[kani::stub(crate::TokenStream::token_types, stub_token_types)]
-fn c08_eval_symbolic_table_small() {
+pub(crate) fn c08_eval_symbolic_table_small() {
     symbolic_table_body(4, 4, 2);
 }
 
@@ -200,7 +200,7 @@ macro_rules! c08_tables {
         #[kani::stub(std::fmt::format, stub_format)]
         #[kani::stub(crate::TokenStream::lookahead_token_type, stub_lookahead_token_type)]
         #[kani::stub(crate::TokenStream::token_types, stub_token_types)]
-        fn $name() { tables_body(super::tables::$m::LOOKAHEAD_AUTOMATA, super::tables::$m::MAX_K); }
+        pub(crate) fn $name() { tables_body(super::tables::$m::LOOKAHEAD_AUTOMATA, super::tables::$m::MAX_K); }
     )* };
 }
 
@@ -216,7 +216,7 @@ c08_tables! {
 #[kani::stub(std::fmt::format, stub_format)]
 #[kani::stub(crate::TokenStream::lookahead_token_type, stub_lookahead_token_type)]
 #[kani::stub(crate::TokenStream::token_types, stub_token_types)]
-fn c08_twin_must_fail() {
+pub(crate) fn c08_twin_must_fail() {
     static T: [Trans; 2] = [Trans(0, 5, 1, 0), Trans(0, 6, 2, 1)];
     let la: [TerminalIndex; LA_MAX] = kani::any();
     unsafe { LA = la; }
